@@ -199,3 +199,31 @@ Proof.
   exists d. split; [exact E|]. split; [exact P|].
   intros i e H. exact (expect_from_nth op l 0%N i e H).
 Qed.
+
+(* ---------------------------------------------------------------- totality: the fuel of coap_decode_all always suffices *)
+Lemma coap_decode_no_fuel idx d : coap_decode idx d <> OutOfFuel.
+Proof.
+  unfold coap_decode.
+  destruct d as [|c [|t [|s [|l0 [|l1 rest]]]]]; try discriminate.
+  destruct (negb (s <=? 6)%N); [discriminate|].
+  destruct (negb (t =? idx)%N); [discriminate|].
+  destruct (negb (s =? 0)%N); [discriminate|].
+  destruct (negb (N.land c 14 =? 2)%N); discriminate.
+Qed.
+
+Lemma coap_decode_all_fuel : forall fuel idx d, length d < fuel -> coap_decode_all_f fuel idx d <> OutOfFuel.
+Proof.
+  induction fuel as [|f IH]; intros idx d H; [lia|].
+  cbn [coap_decode_all_f].
+  destruct (coap_decode idx d) as [[bl r]| e | |] eqn:E; cbn [rbind fst snd]; cbv zeta; try discriminate.
+  - destruct (Nat.leb_spec (length d) (5 + N.to_nat bl)); [discriminate|].
+    assert (Hs : length (skipn (5 + N.to_nat bl) d) < f) by (rewrite skipn_length; lia).
+    pose proof (IH (idx + 1)%N _ Hs) as Hn.
+    unfold rmap, rbind.
+    destruct (coap_decode_all_f f (idx + 1)%N (skipn (5 + N.to_nat bl) d)); try discriminate.
+    contradiction.
+  - exfalso. exact (coap_decode_no_fuel idx d E).
+Qed.
+
+Lemma coap_decode_all_total : forall start d, coap_decode_all start d <> OutOfFuel.
+Proof. intros. unfold coap_decode_all. apply coap_decode_all_fuel. lia. Qed.
